@@ -90,7 +90,14 @@ class Condition(Lock):
     def wait(self, timeout=None):
         self.waits += 1
         if Condition.on_wait is not None:
-            Condition.on_wait(self)
+            # like the real thing: the lock is released while waiting (the hook may call append())
+            if self.lock is not None:
+                self.lock.release()
+            try:
+                Condition.on_wait(self)
+            finally:
+                if self.lock is not None:
+                    self.lock.acquire()
         return True
 
     def notify_all(self):
